@@ -184,9 +184,9 @@ var c18Font9 = func() *font.Font {
 			continue
 		}
 		f.Data[o+0], f.Data[o+1] = byte(ch), 0x80
-		f.Data[o+2], f.Data[o+3] = byte(ch*7+1), byte(ch&1) << 7
+		f.Data[o+2], f.Data[o+3] = byte(ch*7+1), byte(ch&1)<<7
 		f.Data[o+4], f.Data[o+5] = byte(ch>>1)|1, 0x7f // low 7 bits of the second byte are outside the glyph
-		f.Data[o+6], f.Data[o+7] = byte(ch ^ 0x5a), byte(ch&2) << 6
+		f.Data[o+6], f.Data[o+7] = byte(ch^0x5a), byte(ch&2)<<6
 		f.Data[o+8], f.Data[o+9] = 0x01, 0x80
 	}
 	return f
